@@ -1004,6 +1004,32 @@ example : persistImages 4 persistSyncs WState.init [[1, 2, 3, 4, 5, 6], [7]] =
   rw [persistSyncs_all]; decide
 example : runW 4 WState.init [.write [1, 2], .write [3, 4, 5], .flush, .write [9]] = ⟨[2, 1, 2, 3, 3, 4, 5], [1, 9]⟩ := by decide
 
+/-- table files (bufioStreamWriter: the same bufio.Writer, no headers): after Close the file is exactly the
+chunks written, for every buffer size and every chunking — "the table is flushed+closed before its NewFile
+record is appended" makes the table COMPLETE -/
+theorem closed_table_is_complete (B : Nat) (chunks : List Bytes) :
+    flush (streamWrites B WState.init chunks) = ⟨chunks.flatten, []⟩ := by
+  rw [flush_eq, streamWrites_stream]
+  simp [WState.stream, WState.init]
+
+/-- … and before the Close the file is a prefix of the table, missing at most one buffer: a half-written table -/
+theorem unclosed_table_is_prefix (B : Nat) (chunks : List Bytes) :
+    (streamWrites B WState.init chunks).file <+: chunks.flatten ∧
+    chunks.flatten.length ≤ (streamWrites B WState.init chunks).file.length + B := by
+  have h := streamWrites_stream B chunks WState.init
+  have hb := streamWrites_bound B chunks WState.init (by simp [WState.init])
+  have e : WState.init.stream = [] := rfl
+  rw [e, List.nil_append] at h
+  unfold WState.stream at h
+  refine ⟨⟨_, h⟩, ?_⟩
+  rw [← h, List.length_append]
+  omega
+
+theorem tie_stream_writer :
+    only ["binary.PutUvarint", "w.Write", "f.Write"] Generated.C01.streamWriterWriteCalls = ["w.Write"] := by decide
+
+example : streamWrites 4 WState.init [[1, 2, 3], [4, 5, 6], [7]] = ⟨[1, 2, 3, 4], [5, 6, 7]⟩ := by decide
+
 end Round12
 
 namespace Counterfactual
